@@ -46,8 +46,8 @@ def queries(tier):
         qs.append(fq("adaptive-decode-%s" % NAMES[f], {"API": 5, "FORCE": f}))
     qs.append(fq("adaptive-analyze", {"API": 6}))
     if not q:
-        for m in (0, 1, 2):
-            qs.append(fq("float-full-m%d" % m, {"API": 7, "FMODE": m}, to=3600, weight=20))
+        for m in (0,):   # one exponent mode: a float cell takes 30-60 minutes and ~25 GB on its own
+            qs.append(fq("float-full-m%d" % m, {"API": 7, "FMODE": m}, to=5400, weight=20))
             qs[-1].mem_gb = 40
     # bitmap: long-lived object consistent after a failed allocation.  Pre-state = any well-formed container of a concrete
     # shape (scaled constants through the hook; harness/bitmap/step.c OP 20/21/22), one operation (Add / Remove / Clone) whose
